@@ -1,5 +1,6 @@
 """C01 - node resources are never oversubscribed by scheduling decisions."""
 import st_cluster
+import st_fixtures
 import st_clustermodel
 
 LEVEL = "model_checking"
@@ -18,3 +19,5 @@ def run(ctx):
     n = 240 if ctx.quick else 6000
     plan = [("mixed", n // 2), ("slots", n // 6), ("fraction", n // 6), ("full", n // 6)]
     st_cluster.run_stage(ctx, PREFIXES, plan)
+    if not ctx.quick:
+        st_fixtures.run_stage(ctx, PREFIXES)
